@@ -57,6 +57,7 @@ def run(rep, tier):
                     check_get_executed(rep, db, f, inst); cnt("getexec")
                 elif bundled and f["sn"] == "impl_unregister_callback":
                     check_unregister_slots(rep, db, f, inst); cnt("unreg")
+                    check_unregister_scan(rep, db, f, inst)
                 elif bundled and f["sn"] == "impl_invoke_with_func_ptr":
                     check_ctx(rep, db, f, inst); cnt("ctx")
             except Inconclusive as ex:
@@ -526,6 +527,44 @@ def check_unregister_slots(rep, db, f, inst):
         rep.violation(rule, site(f), "no path clears a slot", f["loc"], inst)
         return
     rep.ok(rule, site(f), "clears both arrays at the index whose key matched", inst)
+
+
+def check_unregister_scan(rep, db, f, inst, rule="R-C12-slots"):
+    """impl_unregister_callback must be able to reach EVERY slot: the only data-dependent decisions it may take on the content of
+    the key table are comparisons of a key cell with the key being removed.  A scan that also stops at, or skips over, a slot for
+    another reason (`keys[i] == nullptr`: "no need to look past the first free slot") misses registrations that lie beyond a hole."""
+    ps = Engine(db).run(f)
+    key = ("p", f["params"][0]["n"])
+    lay = slot_layout(db, f)
+    unrd = lambda t: t[1] if isinstance(t, tuple) and t[:1] == ("rd",) else t
+    n = 0
+    for p in ps:
+        for e in p.events:
+            if e.kind != "ASSUME":
+                continue
+            todo = [e.a]
+            while todo:
+                c = todo.pop()
+                if not isinstance(c, tuple):
+                    continue
+                if c[:1] in (("and",), ("or",), ("not",)):
+                    todo += list(c[1:])
+                    continue
+                cells = []
+                # READS of key cells (the address of a cell, e.g. an end pointer, is not a decision on the table's content)
+                q.mentions(c, lambda x: cells.append(x) or False if isinstance(x, tuple) and x[:1] == ("rd",) and isinstance(x[1], tuple) and lay.index_of("key", x[1]) is not None else False)
+                if not cells:
+                    continue
+                n += 1
+                sides = [strip_casts(unrd(x)) for x in c[2:4]] if c[:1] == ("cmp",) and len(c) == 4 else []
+                vals = [strip_casts(x) for x in c[2:4]] if c[:1] == ("cmp",) and len(c) == 4 else []
+                ok = c[:1] == ("cmp",) and c[1] in ("==", "!=") and any(lay.index_of("key", sd) is not None for sd in sides) and \
+                    any(v == key or (isinstance(v, tuple) and v[:2] == ("var", "P") and v[2] == key[1]) for v in vals)
+                if not ok:
+                    rep.violation(rule, site(f) + " [scan]", "the search for the slot to clear takes a decision on the content of the key table other than comparing a key with the key being removed (%s): "
+                                  "a registration lying beyond such a slot is never found, its entry point stays callable and its slot is leaked" % fmt(c)[:90], e.loc or f["loc"], inst)
+                    return
+    rep.ok(rule, site(f) + " [scan]", "every decision on the key table is a comparison with the key being removed (%d)" % n, inst, nontrivial=n > 0)
 
 
 def check_ctx(rep, db, f, inst):
